@@ -81,6 +81,7 @@ func c19(c *orch.Ctx) (*report.Result, error) {
 			r := rng.New(c.Seed, "C19", fmt.Sprint(i))
 			prof := synth.Profiles["fullspec"]
 			prof.MaxControllers = 2
+			prof.HiddenJSON = true // unexported / json:"-" fields in front of visible ones
 			p := synth.Gen(r, prof, fmt.Sprintf("p%04d", i), lab.ModPath)
 			if i%3 == 0 && p.Pkg("models") != nil {
 				// a controller in a file the globs do not match, inside a package that is only loaded because the
